@@ -120,6 +120,17 @@ func (in *Interp) visibleKind(th *Thread) (kind string, call *ssa.CallCommon) {
 		if x.Op == token.ARROW {
 			return "recv", nil
 		}
+	case *ssa.RunDefers:
+		// a deferred blocking call (defer wg.Wait(), defer mu.Lock()) is the
+		// visible operation of the RunDefers instruction
+		fr := th.frames[len(th.frames)-1]
+		if n := len(fr.defers); n > 0 {
+			if fv, ok := fr.defers[n-1].fn.(FuncV); ok && fv.Fn != nil {
+				if k, ok := blockingCalls[fv.Fn.String()]; ok && k != "atomic" {
+					return k, nil
+				}
+			}
+		}
 	case *ssa.Call:
 		name := staticCalleeName(&x.Call)
 		if k, ok := blockingCalls[name]; ok {
@@ -139,6 +150,15 @@ func (in *Interp) visibleKind(th *Thread) (kind string, call *ssa.CallCommon) {
 }
 
 func (in *Interp) curFrame(th *Thread) *Frame { return th.frames[len(th.frames)-1] }
+
+// syncArg returns the receiver of th's pending lock/rlock/wait/atomic operation.
+func (in *Interp) syncArg(th *Thread, call *ssa.CallCommon) Ptrv {
+	fr := in.curFrame(th)
+	if call != nil {
+		return in.get(fr, call.Args[0]).(Ptrv)
+	}
+	return fr.defers[len(fr.defers)-1].args[0].(Ptrv)
+}
 
 // waitingRecv reports whether th is blocked waiting to receive on c
 // (plain receive or blocking select with a receive case on c).
@@ -299,13 +319,13 @@ func (in *Interp) enabled(th *Thread) bool {
 		}
 		return false
 	case "lock":
-		s := in.syncOf(in.get(fr, call.Args[0]).(Ptrv))
+		s := in.syncOf(in.syncArg(th, call))
 		return !s.locked && s.readers == 0
 	case "rlock":
-		s := in.syncOf(in.get(fr, call.Args[0]).(Ptrv))
+		s := in.syncOf(in.syncArg(th, call))
 		return !s.locked
 	case "wait":
-		s := in.syncOf(in.get(fr, call.Args[0]).(Ptrv))
+		s := in.syncOf(in.syncArg(th, call))
 		return s.count == 0
 	}
 	return true
@@ -354,7 +374,7 @@ func (in *Interp) opObjs(th *Thread) []int {
 		}
 		return r
 	case "lock", "rlock", "wait", "atomic":
-		p := in.get(fr, call.Args[0]).(Ptrv)
+		p := in.syncArg(th, call)
 		if p.Cell != nil {
 			return []int{p.Cell.id}
 		}
